@@ -36,7 +36,9 @@ func FibonacciSphere(samples int, radius float64) []trs.TRS {
 	for i, p := range points {
 		transforms[i] = trs.New(
 			p,
-			quaternion.FromTheta(0, p.Normalized()),
+			// a rotation by no angle at all, whatever the axis (and p is the
+			// zero vector, without a direction, when the radius is 0)
+			quaternion.Identity(),
 			vector3.One[float64](),
 		)
 	}
